@@ -20,7 +20,7 @@ def get_fn(chk, facts, rule, name):
 
 def find_one(chk, facts, rule, pred, label):
     """Exactly one function satisfying pred(name) or anchor lost."""
-    hits = [f for n, f in facts.fns.items() if pred(n)]
+    hits = [facts.fns[n] for n in facts.fns if pred(n)]
     if len(hits) != 1:
         chk.lost(rule, label, "expected exactly one match, found %d" % len(hits))
         return None
@@ -82,6 +82,38 @@ def arg_syms(fn, names=None):
 
 OBSERVERS_EMPTY = ("::is_empty",)
 
+OPTION = "std::option::Option"
+RESULT = "std::result::Result"
+CFLOW = "std::ops::ControlFlow"
+
+
+def std_model(cal, args, oracle):
+    """Exact models of the `?` desugaring on Option / Result aggregates (and on
+    symbols whose variant the oracle declares in `variants`)."""
+    if cal.endswith("ops::Try>::branch") and args:
+        a = args[0]
+        var = None
+        payload = None
+        if a[0] == "adt" and a[1] in (OPTION, RESULT):
+            var = a[2]
+            payload = a[4][0] if a[4] else tt.UNK
+        elif a[0] == "sym" and a[1] in getattr(oracle, "variants", {}):
+            var = oracle.variants[a[1]]
+            payload = ("sym", a[1] + ("as " + var, "0"))
+        if var in ("Some", "Ok"):
+            return ("adt", CFLOW, "Continue", 0, [payload])
+        if var == "None":
+            return ("adt", CFLOW, "Break", 1, [("adt", OPTION, "None", 0, [])])
+        if var == "Err":
+            return ("adt", CFLOW, "Break", 1, [("adt", RESULT, "Err", 1, [payload])])
+    if cal.endswith("FromResidual<std::option::Option<std::convert::Infallible>>>::from_residual"):
+        return ("adt", OPTION, "None", 0, [])
+    if "FromResidual<std::result::Result<std::convert::Infallible" in cal and args:
+        a = args[0]
+        if a[0] == "adt" and a[2] == "Err":
+            return ("adt", RESULT, "Err", 1, [("res", "std::convert::From::from", [a[4][0] if a[4] else tt.UNK], 0)])
+    return None
+
 
 class AtomOracle:
     """Atoms: emptiness observers on symbolic fields, discriminants of symbols,
@@ -94,12 +126,13 @@ class AtomOracle:
     calls:    callable(callee, args, term, interp) -> value|None
     """
 
-    def __init__(self, empties=None, discs=None, res_disc=None, res_bool=None, calls=None):
+    def __init__(self, empties=None, discs=None, res_disc=None, res_bool=None, calls=None, variants=None):
         self.empties = empties or {}
         self.discs = discs or {}
         self._res_disc = res_disc
         self._res_bool = res_bool
         self._calls = calls
+        self.variants = variants or {}
         self.undeclared = []
 
     def call(self, cal, args, term, interp):
@@ -107,6 +140,9 @@ class AtomOracle:
             r = self._calls(cal, args, term, interp)
             if r is not None:
                 return r
+        m = std_model(cal, args, self)
+        if m is not None:
+            return m
         if cal.endswith(OBSERVERS_EMPTY) and args and args[0][0] == "sym":
             p = args[0][1]
             if p in self.empties:
